@@ -76,7 +76,13 @@ def oracle(case) -> list:
     out += _check_levels("dot_bracket", b.dot_bracket.structure, seq, pairs, st, g, opt, fcfs_score)
     b2 = BpSeq.from_string(text)
     solver = pulp.PULP_CBC_CMD(msg=False)
-    out += _check_levels("convert", b2.convert_to_dot_bracket(solver).structure, seq, pairs, st, g, opt, fcfs_score)
+    s_conv = b2.convert_to_dot_bracket(solver).structure
+    out += _check_levels("convert", s_conv, seq, pairs, st, g, opt, fcfs_score)
+    # both entry points claim the optimum, so their scores must be EQUAL whatever the optimum is (this also decides
+    # structures whose groups of crossing stems are beyond the reference optimiser)
+    l1, l2 = ssref.stem_levels_from_structure(b.dot_bracket.structure, st), ssref.stem_levels_from_structure(s_conv, st)
+    if l1 is not None and l2 is not None and ssref.is_proper(l1, g) and ssref.is_proper(l2, g) and ssref.score(l1, st) != ssref.score(l2, st):
+        out.append(D("C02:entry-points-differ-in-score", f"dot_bracket scores {ssref.score(l1, st)}, convert_to_dot_bracket(fresh CBC) scores {ssref.score(l2, st)}: {b.dot_bracket.structure!r} vs {s_conv!r}"))
     # structures DERIVED by the library itself are structures too: the notation of what without_isolated() /
     # without_pseudoknots() return must be proper and optimal for the derived pairing
     for name in ("without_isolated", "without_pseudoknots"):
@@ -206,6 +212,10 @@ def plan(tier, seed):
     for k in [k for k in range(2, 14 if tier == "quick" else 21) if k not in (9, 10)]:
         specs.append({"kind": "ladders", "ks": [k]})
     specs.append({"kind": "shaped", "examples": 300 if tier == "quick" else 2000, "seed": seed * 1000 + 99})
+    # densely knotted structures: 10-16 short stems in a random chord arrangement (a solver does not prove these optimal at
+    # the root; tolerances, gaps and early stops of the back-end act here)
+    for k in range(8 if tier == "quick" else 16):
+        specs.append({"kind": "dense", "examples": 120 if tier == "quick" else 2500, "seed": seed * 1000 + 800 + k})
     # near-ties between crossing stems that lie hundreds of stems apart in 5'->3' order
     for n in ((130, 270) if tier == "quick" else (60, 130, 270, 400)):
         specs.append({"kind": "enclosing", "hairpins": n})
@@ -256,6 +266,19 @@ def run_shard(spec) -> ShardResult:
     elif kind == "blowup":
         run_hypothesis(PROP_ID, ssref.st_structures(max_abstract=spec["max_abstract"], min_abstract=2), oracle,
                        seed=spec["seed"], max_examples=spec["examples"], result=res, to_json=tj, classify=classify)
+        res.exhaustive = False
+    elif kind == "dense":
+        from hypothesis import strategies as st
+
+        def build(t):
+            k, perm, lens = t
+            perm = [p for p in perm if p < 2 * k]
+            chords = [tuple(sorted((perm[2 * i], perm[2 * i + 1]))) for i in range(k)]
+            return ssref.chord_structure(sorted(chords), True, lens[:k])
+
+        strat = st.tuples(st.integers(10, 16), st.permutations(list(range(32))), st.lists(st.integers(1, 2), min_size=16, max_size=16)).map(build)
+        run_hypothesis(PROP_ID, strat, oracle, seed=spec["seed"], max_examples=spec["examples"], result=res, to_json=tj,
+                       classify=lambda c: (classify(c)[0], classify(c)[1] + ["densely-knotted-10-16-stems"]), sample_cap=0)
         res.exhaustive = False
     elif kind == "enclosing":
         H, T = [(0, 2), (1, 3)], [(0, 3), (1, 4), (2, 5)]
